@@ -475,15 +475,19 @@ func (s *Server) cmdAOF(msg *Message) (resp.Value, error) {
 }
 
 func (s *Server) liveAOF(pos int64, conn net.Conn, rd *PipelineReader, msg *Message) error {
-	s.mu.RLock()
+	// Open the log and register the follower in one critical section. An
+	// AOFSHRINK swaps the log file under this lock and closes the files of the
+	// registered followers, a file opened before the swap and registered after
+	// it would stream the replaced log forever.
+	s.mu.Lock()
 	f, err := os.Open(s.aof.Name())
-	s.mu.RUnlock()
+	if err == nil {
+		s.aofconnM[conn] = f
+	}
+	s.mu.Unlock()
 	if err != nil {
 		return err
 	}
-	s.mu.Lock()
-	s.aofconnM[conn] = f
-	s.mu.Unlock()
 	defer func() {
 		s.mu.Lock()
 		delete(s.aofconnM, conn)
